@@ -8,6 +8,8 @@ import (
 	"runtime"
 	"strconv"
 	"time"
+
+	"verif.local/verif/simlib/plan"
 )
 
 // checkCtx is the state of one `vcheck check` invocation.
@@ -46,6 +48,13 @@ var replayCmd = map[string]string{"abortsim": "c11-replay", "ordersim": "c14-rep
 
 // confirm re-executes a violation's replay document in a fresh process.
 func (c *checkCtx) confirm(v Violation) (bool, string) {
+	if v.Engine == "simsched" {
+		var p plan.SchedPlan
+		if err := json.Unmarshal(v.Replay, &p); err != nil {
+			return false, err.Error()
+		}
+		return c.tryPlan(&p, v.Key)
+	}
 	tmp := filepath.Join(c.S.Dir, fmt.Sprintf("replay-%d.json", time.Now().UnixNano()))
 	if err := os.WriteFile(tmp, v.Replay, 0o644); err != nil {
 		return false, err.Error()
